@@ -191,7 +191,7 @@ def gen_cond(ctx, kind, k, n, d, fkind, skind, tf=None, zero_offset=False):
 
 def deterministic_coordinate_case(ctx, kind):
     """An output coordinate that is exactly deterministic and is NOT the last one: the Gaussian knows input coordinate 0
-    exactly (zero row and column of its factor), output 0 copies it without noise (row 0 of A is a multiple of e_0, row 0
+    exactly (zero row of its factor), output 0 copies it without noise (row 0 of A is a multiple of e_0, row 0
     of the noise factor is zero), all other coordinates are random.  Triangularisation then meets a zero pivot in the first
     column with non-zero entries to its right (seeded change C08-s7: a sign normalisation with sign(0) = 0 wipes that row)."""
     import jax.numpy as jnp
@@ -202,8 +202,7 @@ def deterministic_coordinate_case(ctx, kind):
 
     def factor(m):
         L = np.tril(gen.dyadic(rng, (m, m), bits=4)) + np.diag(rng.integers(1, 4, size=m).astype(float))
-        L[0, :] = 0.0
-        L[:, 0] = 0.0
+        L[0, :] = 0.0  # coordinate 0 has no randomness; noise direction 0 still feeds the other coordinates
         return L
 
     def linop():
@@ -229,7 +228,9 @@ def deterministic_coordinate_case(ctx, kind):
         tl, to = np.stack([gen.scalings(rng, n, "mild") for _ in range(d)]), np.stack([gen.scalings(rng, k, "mild") for _ in range(d)])
     rv = Normal(jnp.asarray(m), jnp.asarray(Lr), None)
     c = Cond(jnp.asarray(A), Normal(jnp.asarray(b), jnp.asarray(Lq), None), to_latent=jnp.asarray(tl), to_observed=jnp.asarray(to))
-    tag = {"n": n, "d": d, "k": k, "structure": "deterministic first output coordinate", "it": "corpus"}
+    # D14 (known finding): with a singular innovation whose zero pivot has non-zero entries to its right, the backward
+    # covariance returned by revert_conditional misses the part of R12 outside the range of R_Y; filed under its own signature
+    tag = {"n": n, "d": d, "k": k, "structure": "deterministic first output coordinate", "it": "corpus", "sig_suffix": ":singular-innovation-coupled-noise"}
     ctx.count("structure=deterministic-coordinate")
     check_marg(ctx, kind, c, rv, tag)
     c2 = gen_cond(ctx, kind, 2, k, d, "rankdef", "mild")
@@ -371,7 +372,7 @@ def check_revert(ctx, kind, c, rv, mode, tag):
         dP_ = np.sqrt(np.maximum(np.diag(Pi), 0))
         scb = np.where(np.outer(dP_, dP_) > 0, np.outer(dP_, dP_), np.finfo(float).tiny)
         devQ = float(np.max(np.abs(Cb - fl(bQ)) / scb)) / kappa if np.all(np.isfinite(Cb)) else float("inf")
-        ctx.dev("revert.bw.Q", devQ, TOL, case=case, sig=f"{kind}:revert:bw.cov",
+        ctx.dev("revert.bw.Q" + (".singular-coupled" if tag.get("sig_suffix") else ""), devQ, TOL, case=case, sig=f"{kind}:revert:bw.cov" + tag.get("sig_suffix", ""),
                 what=f"backward covariance deviates from P - G S G^T by {devQ:.3e} (relative to prior variances, / kappa={kappa:.1e})")
         # joint law: G_impl S = P' A^T in the metric sqrt(P'_ii S_jj); robust also for ill-conditioned S
         Gi = _np(sb[0])
